@@ -756,6 +756,9 @@ class SVG:
         to_process = reversed(tuple(c for c in self.breadth_first()))
 
         defs = etree.Element(f"{{{svgns()}}}defs", nsmap=self.svg_root.nsmap)
+        if self.svg_root.text is not None and not self.svg_root.text.strip():
+            # blank text the parser kept because it was the root's only content
+            self.svg_root.text = None
         self.svg_root.insert(0, defs)
 
         for context in to_process:
